@@ -1794,6 +1794,26 @@ func runConcModel(r *common.Rand, rp map[string]string, killUS int) {
 			bs = append(bs, strconv.Itoa(b.ID))
 		}
 	}
+	if killUS < 0 {
+		// C10_conc_completed_push / _tag / _untag, directly on the directory: a call that has returned
+		// and whose reference no other call of the batch names has its effect in index.json
+		named := map[int]int{}
+		for _, ops := range sc.Conc {
+			if o := ops[0]; o.Kind == "tag" || o.Kind == "untag" {
+				named[o.Ref]++
+			}
+		}
+		for _, ops := range sc.Conc {
+			switch o := ops[0]; {
+			case o.Kind == "push" && !on[o.Blob]:
+				run.OracleFail(id, "conc-completed-lost", fmt.Sprintf("blob %d of a concurrent Push that returned is not stored", o.Blob), rep)
+			case o.Kind == "tag" && named[o.Ref] == 1 && !strings.Contains(obsIdx, fmt.Sprintf("%d@%d", o.Blob, o.Ref)):
+				run.OracleFail(id, "conc-completed-lost", fmt.Sprintf("index.json %s lacks t%d -> blob %d set by a concurrent Tag that returned", obsIdx, o.Ref, o.Blob), rep)
+			case o.Kind == "untag" && named[o.Ref] == 1 && (strings.Contains(obsIdx, fmt.Sprintf("@%d,", o.Ref)) || strings.Contains(obsIdx, fmt.Sprintf("@%d]", o.Ref))):
+				run.OracleFail(id, "conc-completed-lost", fmt.Sprintf("index.json %s still has t%d removed by a concurrent Untag that returned", obsIdx, o.Ref), rep)
+			}
+		}
+	}
 	run.Case(id, "Q "+text+" "+prefix+"I="+obsIdx+";B="+strings.Join(bs, ","), "QREACH yes")
 }
 
